@@ -498,3 +498,154 @@ Proof.
   - unfold c4_wf. cbn. intuition discriminate.
   - vm_compute. reflexivity.
 Qed.
+
+(* ------------------------------------------------------------------ (d) outlines *)
+Lemma c4_ochain_inv : forall fuel g cur l,
+  c4_wf g -> NoDup l -> incl l (c4_keys g) -> (length g < fuel + length l)%nat ->
+  exists l' b, c4_ochain fuel g cur l l = Some (rev l', b) /\ NoDup l' /\ incl l' (c4_keys g).
+Proof.
+  induction fuel as [|f IH]; intros g cur l Hwf Hn Hi Hlen.
+  - pose proof (c4_nodup_keys_le _ g l Hn Hi). lia.
+  - cbn [c4_ochain]. destruct (if cur =? 0 then None else c4_find g cur) as [nd|] eqn:Ef; [|exists l, false; auto].
+    destruct (cur =? 0); [discriminate|].
+    destruct (c4_mem cur l) eqn:Em; [exists l, true; auto|].
+    rewrite c4_mem_false in Em.
+    apply IH; [assumption | constructor; assumption | | cbn [length]; lia].
+    intros x [Hx|Hx]; [subst; eapply c4_find_some_key; eauto | auto].
+Qed.
+
+(* the sibling walk (/First, /Next, /Next ...) ends within one round through the nodes; the siblings it returns are
+   distinct nodes of the graph *)
+Lemma outlines_chain_fuel_lemma : forall g cur, c4_wf g ->
+  exists sibs b, c4_ochain (S (length g)) g cur [] [] = Some (sibs, b) /\ NoDup sibs /\ incl sibs (c4_keys g) /\
+                 (length sibs <= length g)%nat.
+Proof.
+  intros g cur Hwf. destruct (c4_ochain_inv (S (length g)) g cur [] Hwf) as (l' & b & H & Hn & Hi);
+    [constructor | intros x [] | cbn; lia|].
+  exists (rev l'), b. split; [exact H|]. split; [apply NoDup_rev; exact Hn|]. split.
+  - intros x Hx. apply Hi. apply in_rev. exact Hx.
+  - rewrite rev_length. eapply c4_nodup_keys_le; eauto.
+Qed.
+
+Definition c4_oinv (g : list (N * c4_onode)) (st : c4_ost) : Prop :=
+  NoDup (c4os_exp st) /\ incl (c4os_exp st) (c4os_seen st) /\ incl (c4os_exp st) (c4_keys g) /\
+  (c4os_maxdepth st <= 50)%nat /\ c4os_fuel_out st = false.
+Definition c4_oA (st : c4_ost) : N := N.of_nat (length (c4os_exp st)).
+(* relation between the state before and after n helper constructions *)
+Definition c4_orel (g : list (N * c4_onode)) (n : N) (st st' : c4_ost) : Prop :=
+  c4_oinv g st' /\
+  c4os_made st' + c4_oA st * N.of_nat (length g) <= c4os_made st + n + c4_oA st' * N.of_nat (length g) /\
+  c4_oA st <= c4_oA st' /\
+  c4os_made st' + c4_oA st + c4os_cut st + c4os_warn st <= c4os_made st + c4_oA st' + c4os_cut st' + c4os_warn st'.
+
+Lemma c4_ofold_rel : forall (F : c4_ost -> N -> c4_ost) g sibs st,
+  (forall k st, In k sibs -> c4_oinv g st -> c4_orel g 1 st (F st k)) ->
+  c4_oinv g st -> c4_orel g (N.of_nat (length sibs)) st (fold_left F sibs st).
+Proof.
+  intros F g sibs. induction sibs as [|k sibs IH]; intros st HF Hinv.
+  - unfold c4_orel. cbn [fold_left length]. split; [exact Hinv|]. repeat split; lia.
+  - cbn [fold_left]. destruct (HF k st (or_introl eq_refl) Hinv) as (Hi1 & Hm1 & Ha1 & Hp1).
+    destruct (IH (F st k) (fun k' st' Hk => HF k' st' (or_intror Hk)) Hi1) as (Hi2 & Hm2 & Ha2 & Hp2).
+    unfold c4_orel. split; [exact Hi2|]. cbn [length]. repeat split; lia.
+Qed.
+
+Lemma c4_ocreate_rel : forall fuel g n depth st,
+  c4_wf g -> In n (c4_keys g) -> (depth <= 51)%nat -> (53 <= fuel + depth)%nat -> c4_oinv g st ->
+  c4_orel g 1 st (c4_ocreate fuel g n depth st).
+Proof.
+  induction fuel as [|f IH]; intros g n depth st Hwf Hin Hd Hf Hinv; [lia|].
+  destruct Hinv as (Hnd & His & Hik & Hmd & Hfo).
+  cbn [c4_ocreate]. cbn [c4os_seen c4os_made c4os_warn c4os_cut c4os_exp c4os_fuel_out c4os_maxdepth].
+  destruct (Nat.ltb 50 depth) eqn:El.
+  { unfold c4_orel, c4_oinv, c4_oA; cbn. repeat split; try assumption; lia. }
+  apply PeanoNat.Nat.ltb_ge in El.
+  destruct (c4_mem n (c4os_seen st)) eqn:Em.
+  { unfold c4_orel, c4_oinv, c4_oA; cbn. repeat split; try assumption; lia. }
+  rewrite c4_mem_false in Em.
+  set (first := match c4_find g n with Some nd => c4o_first nd | None => 0 end).
+  destruct (outlines_chain_fuel_lemma g first Hwf) as (sibs & looped & Hc & Hsn & Hsi & Hsl). rewrite Hc.
+  set (st2 := mkC4ost (n :: c4os_seen st) (c4os_made st + 1) (c4os_warn st) (c4os_cut st) (n :: c4os_exp st) (c4os_fuel_out st)
+                      (Nat.max (c4os_maxdepth st) depth)).
+  assert (Hinv2 : c4_oinv g st2).
+  { unfold c4_oinv, st2; cbn. repeat split.
+    - constructor; [intro Hx; apply Em, His, Hx | assumption].
+    - intros x [Hx|Hx]; [left; exact Hx | right; apply His; exact Hx].
+    - intros x [Hx|Hx]; [subst; assumption | apply Hik; exact Hx].
+    - apply PeanoNat.Nat.max_lub; assumption.
+    - assumption. }
+  pose proof (c4_ofold_rel (fun st k => c4_ocreate f g k (S depth) st) g sibs st2) as Hfold.
+  destruct Hfold as (Hi3 & Hm3 & Ha3 & Hp3); [|exact Hinv2|].
+  { intros k st' Hk Hinv'. apply IH; try assumption; [apply Hsi; exact Hk | lia | lia]. }
+  set (st3 := fold_left (fun st k => c4_ocreate f g k (S depth) st) sibs st2) in *.
+  assert (HA2 : c4_oA st2 = c4_oA st + 1) by (unfold c4_oA, st2; cbn [c4os_exp length]; lia).
+  assert (Hm2 : c4os_made st2 = c4os_made st + 1) by reflexivity.
+  assert (Hc2 : c4os_cut st2 = c4os_cut st) by reflexivity.
+  assert (Hw2 : c4os_warn st2 = c4os_warn st) by reflexivity.
+  rewrite HA2, Hm2 in Hm3. rewrite HA2, Hm2, Hc2, Hw2 in Hp3. rewrite HA2 in Ha3.
+  assert (Hsl' : N.of_nat (length sibs) <= N.of_nat (length g)) by lia.
+  destruct looped.
+  - destruct Hi3 as (H1 & H2 & H3 & H4 & H5).
+    unfold c4_orel, c4_oinv. cbn [c4os_seen c4os_made c4os_warn c4os_cut c4os_exp c4os_fuel_out c4os_maxdepth].
+    unfold c4_oA in *. cbn [c4os_exp]. repeat split; try assumption; lia.
+  - unfold c4_orel. split; [exact Hi3|]. repeat split; lia.
+Qed.
+
+Lemma c4_ost0_inv : forall g, c4_oinv g c4_ost0.
+Proof. intros g. unfold c4_oinv, c4_ost0; cbn. repeat split; try constructor; try (intros x []); lia. Qed.
+
+Lemma c4_outlines_rel : forall g first, c4_wf g ->
+  exists n, n <= N.of_nat (length g) /\ c4_orel g n c4_ost0 (c4_outlines g first).
+Proof.
+  intros g first Hwf. unfold c4_outlines.
+  destruct (outlines_chain_fuel_lemma g first Hwf) as (tops & looped & Hc & Hsn & Hsi & Hsl). rewrite Hc.
+  pose proof (c4_ofold_rel (fun st k => c4_ocreate 52 g k 1 st) g tops c4_ost0) as Hfold.
+  destruct Hfold as (Hi3 & Hm3 & Ha3 & Hp3); [|apply c4_ost0_inv|].
+  { intros k st' Hk Hinv'. apply c4_ocreate_rel; try assumption; [apply Hsi; exact Hk | lia | lia]. }
+  exists (N.of_nat (length tops)). split; [lia|].
+  destruct looped; [|unfold c4_orel; split; [exact Hi3|]; repeat split; assumption].
+  destruct Hi3 as (H1 & H2 & H3 & H4 & H5).
+  unfold c4_orel, c4_oinv. cbn [c4os_seen c4os_made c4os_warn c4os_cut c4os_exp c4os_fuel_out c4os_maxdepth].
+  unfold c4_oA in *. cbn [c4os_exp]. repeat split; try assumption; lia.
+Qed.
+
+(* the outline walk never exhausts its fuel (52 for the nesting, one round through the nodes for every sibling walk) *)
+Lemma outlines_fuel_lemma : forall g first, c4_wf g -> c4os_fuel_out (c4_outlines g first) = false.
+Proof. intros g first Hwf. destruct (c4_outlines_rel g first Hwf) as (n & _ & (_ & _ & _ & _ & H) & _). exact H. Qed.
+
+(* children are walked at depth <= 50 only *)
+Lemma outlines_depth_lemma : forall g first, c4_wf g -> (c4os_maxdepth (c4_outlines g first) <= 50)%nat.
+Proof. intros g first Hwf. destruct (c4_outlines_rel g first Hwf) as (n & _ & (_ & _ & _ & H & _) & _). exact H. Qed.
+
+(* every node has its children walked at most once *)
+Lemma outlines_expanded_lemma : forall g first, c4_wf g ->
+  NoDup (c4os_exp (c4_outlines g first)) /\ (length (c4os_exp (c4_outlines g first)) <= length g)%nat.
+Proof.
+  intros g first Hwf. destruct (c4_outlines_rel g first Hwf) as (n & _ & (H1 & _ & H3 & _) & _).
+  split; [exact H1 | eapply c4_nodup_keys_le; eauto].
+Qed.
+
+(* the number of helper objects constructed is at most n + n*n for n nodes (it IS quadratic for k nodes that all name
+   the same chain of k children), and every helper that does not walk children is cut at depth 50 or comes with the
+   "Loop detected" warning *)
+Lemma outlines_made_lemma : forall g first, c4_wf g ->
+  c4os_made (c4_outlines g first) <= N.of_nat (length g) + N.of_nat (length g) * N.of_nat (length g) /\
+  c4os_made (c4_outlines g first) <=
+    N.of_nat (length (c4os_exp (c4_outlines g first))) + c4os_cut (c4_outlines g first) + c4os_warn (c4_outlines g first).
+Proof.
+  intros g first Hwf. destruct (c4_outlines_rel g first Hwf) as (n & Hn & ((H1 & _ & H3 & _) & Hm & _ & Hp)).
+  pose proof (c4_nodup_keys_le _ g _ H1 H3) as Hle.
+  unfold c4_oA, c4_ost0 in *. cbn [c4os_exp c4os_made c4os_cut c4os_warn length] in *.
+  split; [|lia].
+  assert (N.of_nat (length (c4os_exp (c4_outlines g first))) * N.of_nat (length g) <= N.of_nat (length g) * N.of_nat (length g))
+    by (apply N.mul_le_mono_r; lia).
+  lia.
+Qed.
+
+(* a node that is reached again (it is in the document-wide seen set) is reported and not expanded *)
+Lemma outlines_revisit_reported_lemma : forall f g n depth st, (depth <= 50)%nat -> In n (c4os_seen st) ->
+  c4os_warn (c4_ocreate (S f) g n depth st) = c4os_warn st + 1 /\ c4os_exp (c4_ocreate (S f) g n depth st) = c4os_exp st.
+Proof.
+  intros f g n depth st Hd Hin. cbn [c4_ocreate]. cbn [c4os_seen].
+  destruct (Nat.ltb 50 depth) eqn:El; [apply PeanoNat.Nat.ltb_lt in El; lia|].
+  apply c4_mem_true in Hin. rewrite Hin. cbn. auto.
+Qed.
